@@ -264,10 +264,82 @@ func detectRenames(pkgs []*packages.Package) []Rename {
 				}
 			}
 			var rs []Rename
+			base := func(k string) string { return k[strings.LastIndex(k, ".")+1:] }
+			done := map[string]bool{}
 			for _, g := range gone {
 				if len(cands[g]) == 1 && len(back[cands[g][0]]) == 1 {
 					a := cands[g][0]
-					base := func(k string) string { return k[strings.LastIndex(k, ".")+1:] }
+					done[g] = true
+					rs = append(rs, Rename{Pkg: pkg.PkgPath, Kind: kind, Old: base(g), New: now[a].obj.Name(), obj: now[a].obj})
+				}
+			}
+			// several identifiers of one owner and one description renamed
+			// together (pinCh, unpinCh -> pinQueue, unpinQueue): a group of
+			// n gone and the same n new ones is paired by name similarity
+			// when one pairing is strictly the most similar
+			groups := map[string][]string{}
+			for _, g := range gone {
+				if !done[g] && len(cands[g]) > 1 {
+					groups[owner(g)+"\x00"+ref[g]] = append(groups[owner(g)+"\x00"+ref[g]], g)
+				}
+			}
+			var gkeys []string
+			for k := range groups {
+				gkeys = append(gkeys, k)
+			}
+			sort.Strings(gkeys)
+			for _, gk := range gkeys {
+				gs := groups[gk]
+				as := cands[gs[0]]
+				same := len(as) == len(gs) && len(gs) <= 4
+				for _, g := range gs {
+					if len(cands[g]) != len(as) {
+						same = false
+					}
+					for i := range cands[g] {
+						if same && cands[g][i] != as[i] {
+							same = false
+						}
+					}
+				}
+				for _, a := range as {
+					if len(back[a]) != len(gs) {
+						same = false
+					}
+				}
+				if !same {
+					continue
+				}
+				best, second := -1.0, -1.0
+				var bestPerm []int
+				perm := make([]int, len(gs))
+				used := make([]bool, len(gs))
+				var rec func(i int, score float64)
+				rec = func(i int, score float64) {
+					if i == len(gs) {
+						if score > best {
+							second, best = best, score
+							bestPerm = append([]int(nil), perm...)
+						} else if score > second {
+							second = score
+						}
+						return
+					}
+					for j := range as {
+						if !used[j] {
+							used[j] = true
+							perm[i] = j
+							rec(i+1, score+nameSimilarity(base(gs[i]), base(as[j])))
+							used[j] = false
+						}
+					}
+				}
+				rec(0, 0)
+				if bestPerm == nil || best-second < 1e-9 {
+					continue
+				}
+				for i, g := range gs {
+					a := as[bestPerm[i]]
 					rs = append(rs, Rename{Pkg: pkg.PkgPath, Kind: kind, Old: base(g), New: now[a].obj.Name(), obj: now[a].obj})
 				}
 			}
@@ -362,4 +434,32 @@ func renamingParser(pos map[string]map[int]string) func(*token.FileSet, string, 
 
 func (r Rename) String() string {
 	return fmt.Sprintf("%s %s: %s (was %s)", strings.TrimPrefix(strings.TrimPrefix(r.Pkg, ModPath), "/"), r.Kind, r.New, r.Old)
+}
+
+// nameSimilarity: length of the longest common substring of the two names
+// (case-insensitive) over the length of the longer one.
+func nameSimilarity(a, b string) float64 {
+	a, b = strings.ToLower(a), strings.ToLower(b)
+	if len(a) == 0 || len(b) == 0 {
+		return 0
+	}
+	best := 0
+	prev := make([]int, len(b)+1)
+	for i := 1; i <= len(a); i++ {
+		cur := make([]int, len(b)+1)
+		for j := 1; j <= len(b); j++ {
+			if a[i-1] == b[j-1] {
+				cur[j] = prev[j-1] + 1
+				if cur[j] > best {
+					best = cur[j]
+				}
+			}
+		}
+		prev = cur
+	}
+	m := len(a)
+	if len(b) > m {
+		m = len(b)
+	}
+	return float64(best) / float64(m)
 }
